@@ -7,6 +7,11 @@ from . import model as M
 FORMULAS = ["H2O", "CaCO3+6H2O", "D2O", "H[2]2O", "Fe{2+}O", "Ni[58]{3+}Cl3", "NaCl // H2O",
             "5wt% NaCl // H2O", "(CH2)8", "Fe2(SO4)3", "T2O", "50vol% D2O@1.1 // H2O@1", "Gd[155]2O3",
             "1mm Fe // 2mm Ni", "5g NaCl // 50mL H2O@1", " ", "n", "U[235]O2",
+            # more of the grammar: D/T ions, nested groups, density suffixes inside mixtures, grouped mixtures
+            "D{+}2O", "T{+}Cl{-}", "(H[1]2O)3(D2O)2@1.05", "((CH2)2O)3@1.1n", "(50wt% D2O@1.1 // H2O@1)@1.05",
+            "2nm (Fe[56]2O3)@5.2 // 3nm Ni{2+}O@6.7", "10wt% D{+}Cl{-}@1.2n // T2O@1.2n",
+            "Ca[40]C[13]O[18]3+6H[1]2O", "3 HCl", "5mg D2O // 2mL T2O@1.2",
+            "30%vol (CD2)4@0.9 // 20% T{+}F{-}@1.1 // H[3]2O@1.2", "D[2]2O",
             # failing operations: must raise and leave the grammar of every table usable
             "Xx2O", "Fe{9+}O", "H2O)", "Fe[400]2O3", "5wt% Qq // H2O"]
 FASTA = ["aa:AVG", "dna:ACGT", "rna:ACGU"]
@@ -202,10 +207,14 @@ def gen(seed, V, tier, index, bias=None):
                 s = rng.choice(FASTA)
             which = rng.random()
             tt = rng.choice(live_tables + ["public"])
-            if which < 0.12 and s.strip() and ":" not in s:
+            if which < 0.06 and s.strip() and ":" not in s:
                 dst = rng.choice(live_tables + ["public", None])
                 ev = ["formula_reuse", tt, s if "//" not in s else "H2O@1",
                       rng.choice(["formula", "mix_weight", "mix_volume", "nsld", "nscat", "d2o"]), dst]
+            elif which < 0.12 and ":" not in s:
+                # the caller edits, in place, the Formula it was handed; the string is parsed again elsewhere
+                ev = ["formula_reuse", tt, s, rng.choice(["own_iadd", "own_density", "own_name", "own_change_table"]),
+                      rng.choice([d for d in live_tables + ["public", None] if (d or "public") != tt] or [None])]
             elif which < 0.6:
                 ev = ["formula", tt, s, rng.choice(FORMULA_HOW)]
             elif which < 0.75:
@@ -351,6 +360,13 @@ def c10_strata():
         out.append([["newtable", "T1"], ["init", "T1", "mass", False], ["init", "T1", "density", False],
                     ["formula_reuse", "T1", "H2O@1", op, "public"], ["formula_reuse", "public", "H2O@1", op, "T1"],
                     ["formula_reuse", "T1", "H2O@1", op, None]])
+    # the caller edits its own Formula in place; the same string parsed for another table must not follow
+    for op in ("own_iadd", "own_density", "own_name", "own_change_table"):
+        for text in ("H2O@1", " ", "5wt% NaCl // H2O"):
+            out.append([["newtable", "T1"], ["init", "T1", "mass", False], ["init", "T1", "density", False],
+                        ["newtable", "T2"], ["init", "T2", "mass", False], ["init", "T2", "density", False],
+                        ["formula_reuse", "T1", text, op, "T2"], ["formula_reuse", "T1", text, op, None],
+                        ["formula_reuse", "public", text, op, "T1"]])
     # symmetric isolation: the public table is customised after / before a private table is built
     for target, atom in (("_mass", [1, 0, 0]), ("_density", [26, 0, 0]), ("crystal_structure_inplace", [26, 0, 0]),
                          ("neutron_field", [26, 0, 0]), ("xray_sftable_inplace", [26, 0, 0]),
